@@ -12,7 +12,7 @@
    hold for both variants; the leak refutations are schedules of [init] (the code before the fix), the
    transparency refutations are schedules of both variants (they involve no delete). *)
 From Verif Require Import Base C14_Model C14_Check C14_Proofs C14_Proofs2 C14_Proofs3 C14_Proofs4
-  C14_Proofs5 C14_Proofs6 C14_Proofs7 C14_Proofs8 C14_Proofs9 C14_Proofs10.
+  C14_Proofs5 C14_Proofs6 C14_Proofs7 C14_Proofs8 C14_Proofs9 C14_Proofs10 C14_Quiet C14_QuietProofs.
 
 (* ---- 1. no goroutine deadlocks ---------------------------------------------------------- *)
 (* In every reachable state in which some goroutine has not finished, some goroutine can take
@@ -29,6 +29,46 @@ Theorem c14_mutual_exclusion : forall progs s t1 t2 th1 th2,
   holder (t_pc th1) = true -> holder (t_pc th2) = true -> t1 = t2.
 Proof. exact writer_unique. Qed.
 Print Assumptions c14_mutual_exclusion.
+
+(* ---- 1b. what a goroutine can be waiting for (C14_Quiet.v) ---------------------------------- *)
+(* The checker follows the recorded trace with the refined step [stepQ]: the model + the one blocking
+   rule of database/sql the cache relies on (Stmt.Close waits for the executions of the statement in
+   flight, and a new pool-level execution queues behind a pending Close).  Every refined run is a run
+   of the model with stutter steps, so every theorem about [reach] holds of its states ... *)
+Theorem c14_refined_runs_are_runs : forall progs q, reachQ progs q -> reach progs (q_s q).
+Proof. exact reachQ_reach. Qed.
+Print Assumptions c14_refined_runs_are_runs.
+
+(* ... it has no deadlock either (a Close waits only for an execution that is with the driver) ... *)
+Theorem c14_no_deadlock_refined : forall progs q,
+  reachQ progs q -> all_done (q_s q) = false -> exists t c, stepQ q t c <> None.
+Proof. exact no_deadlockQ. Qed.
+Print Assumptions c14_no_deadlock_refined.
+
+(* ... and "no goroutine deadlocks in ANY order in which the driver completes its calls": in a
+   reachable state in which no goroutine of the programs can move on its own (each is waiting to be
+   started, finished, inside a driver call, or blocked), a blocked one is
+   (a) in prepare, waiting for the [prepared] channel of an entry whose preparer is inside the driver's
+       Prepare call for it (the single preparation the property asks for), or
+   (b) a pool-level use, at the call of the statement it was handed, behind a pending Stmt.Close of that
+       statement (the cache closed a statement in use: known finding close-races-use).
+   Nobody waits for the cache mutex; Reset and Close wait for nothing (their closers do the waiting);
+   nobody but (b) waits for an execution.  This is what the checker compares at every quiet point
+   ([quiet_on], [stuck_on] on the goroutines of the programs). *)
+Theorem c14_blocked_only_behind_prepare : forall progs q,
+  reachQ progs q -> quiet_on (actors progs) q = true ->
+  forall t, In t (stuck_on (actors progs) q) ->
+  (exists e u thu, t_pc (thr (q_s q) t) = P3 e /\ e_done (ent (q_s q) e) = false /\
+                   nth_error (s_thr (q_s q)) u = Some thu /\ t_pc thu = P9w e /\ u <> t)
+  \/ (exists st, t_pc (thr (q_s q) t) = X0 st /\ cur_tx (thr (q_s q) t) = false /\ close_pending q st = true).
+Proof. exact stuck_classified. Qed.
+Print Assumptions c14_blocked_only_behind_prepare.
+
+Theorem c14_reset_and_close_never_wait : forall progs q t,
+  reachQ progs q -> quiet_on (actors progs) q = true -> In t (stuck_on (actors progs) q) ->
+  match t_pc (thr (q_s q) t) with P3 _ | X0 _ => True | _ => False end.
+Proof. exact stuck_is_use. Qed.
+Print Assumptions c14_reset_and_close_never_wait.
 
 (* ---- 2. a text is prepared at most once per cache generation ------------------------------ *)
 (* An entry (hence a Prepare call) is published only while no entry able to serve the request
@@ -229,3 +269,17 @@ Example c14_transparent_partial_instance :
   exists s, run (init w7_progs) w7_sched = Some s /\ all_done s = true /\ s_calls s = [(0, false)]
             /\ results s = [[ROk]; [ROk]].
 Proof. exact w7_instance. Qed.
+
+(* both kinds of wait of c14_blocked_only_behind_prepare are reachable: a waiter behind a Prepare call
+   that is with the driver; a pool-level use behind the Close that Reset's closer started while the
+   statement is being executed *)
+Example c14_wait_behind_prepare_instance : exists q, runQ (initQ true w8_progs) w8_sched = Some q
+  /\ quiet_on (actors w8_progs) q = true /\ stuck_on (actors w8_progs) q = [1]
+  /\ t_pc (thr (q_s q) 0) = P9w 0 /\ t_pc (thr (q_s q) 1) = P3 0.
+Proof. exact w8_instance. Qed.
+
+Example c14_wait_behind_close_instance : exists q, runQ (initQ true w9_progs) w9_sched = Some q
+  /\ quiet_on (actors w9_progs) q = true /\ stuck_on (actors w9_progs) q = [1]
+  /\ t_pc (thr (q_s q) 0) = X1 0 /\ t_pc (thr (q_s q) 1) = X0 0 /\ t_pc (thr (q_s q) 2) = Idle
+  /\ q_pend q = [(3, 0)].
+Proof. exact w9_instance. Qed.
